@@ -90,7 +90,7 @@ func (s stubTables) GetTable(name string) (table.ActiveTable, error) {
 	}
 	return table.Table{Name: name, ClusterID: 1}.AsActive(s.nh), nil
 }
-func (s stubTables) Restore(string, io.Reader) error          { return nil }
+func (s stubTables) Restore(string, io.Reader) error         { return nil }
 func (s stubTables) CreateTable(string) (table.Table, error) { return table.Table{}, nil }
 func (s stubTables) DeleteTable(string) error                { return nil }
 
